@@ -368,6 +368,13 @@ pub fn new_interp_with(spec_clock_start: i64, random_seed: u64, internal_sources
     if !internal_sources.contains_key("lib:util") {
         internal_modules.push(tsrun::InternalModule::source("lib:util".to_string(), LIB_UTIL.to_string()));
     }
+    // ... and one whose body dies after it has built and exported something
+    if !internal_sources.contains_key("lib:bad") {
+        internal_modules.push(tsrun::InternalModule::source(
+            "lib:bad".to_string(),
+            "export const big: any[] = [{ a: 1 }, { b: [2] }, {}];\nconst keep: any = { big: big };\nfunction boom(): any { throw new Error(\"lib:bad died \" + big.length); }\nboom();\nexport const never: number = keep.big.length;\n".to_string(),
+        ));
+    }
     for (k, v) in internal_sources {
         internal_modules.push(tsrun::InternalModule::source(k.clone(), v.clone()));
     }
